@@ -20,7 +20,6 @@ The oracle is the property text, evaluated after every operation (aggregates, re
 children) and after every adjustment (grow / shrink clauses, reaping, factory count).
 """
 import gc
-import itertools
 import random
 import weakref
 
